@@ -157,9 +157,14 @@ def leaf_text(node, env, atom, depth=0):
             if isinstance(sl, ast.Constant) and isinstance(sl.value, str):
                 idx = repr(sl.value)
         return f"{base}[{idx}]"
+    if isinstance(node, (ast.List, ast.Tuple)):
+        return "[" + ", ".join(leaf_text(e, env, atom, depth + 1) for e in node.elts) + "]"
     if isinstance(node, ast.Call):
         args = []
         for a in node.args:
+            if isinstance(a, (ast.List, ast.Tuple)):
+                args.append(leaf_text(a, env, atom, depth + 1))
+                continue
             try:
                 args.append(str(expr_ratio(a, env, atom, depth + 1)))
             except FormulaError:
